@@ -464,7 +464,7 @@ Fixpoint finish_in (qs : list qstate) (qn : N) (ok stp : bool) (unl : list N) : 
         match q_running q, q_items q with
         | Some sync, t :: rest =>
             let success := ok || t_allow t in
-            let unl' := if success && sync then unl ++ t_mids t else unl in
+            let unl' := if success then unl ++ t_mids t else unl in
             if stp then (mkQ (q_name q) (q_items q) None :: r, unl')
             else if success then (mkQ (q_name q) rest None :: r, unl')
             else (mkQ (q_name q) (incr_fail t :: rest) None :: r, unl')
